@@ -226,15 +226,25 @@ def changeDuration (e : Element) (ch : Chan) (name : String) (dur : Val) (all : 
 def padArr (pre post : Nat) (xs : List Rat) : List Rat :=
   List.replicate pre 0 ++ xs ++ List.replicate post 0
 
+/-- `oldwait + delay` for every waituntil segment -/
+def shiftWait (delay : Rat) (s : Seg) : Seg :=
+  if s.fn.isWait then
+    match s.args with
+    | .num t :: _ => { s with args := [.num (t + delay)] }
+    | _ => s
+  else s
+
+/-- the segments `_applyDelays` inserts: `insertSegment(0, "waituntil", (delay,), "waituntil")` and
+    `insertSegment(-1, PulseAtoms.ramp, (0, 0), dur=maxdelay - delay)` -/
+def delayHead (delay : Rat) : Seg :=
+  { name := "waituntil", fn := Fn.waitSpecial, args := [.num delay], dur := .str "waituntil" }
+def delayTail (d : Rat) : Seg :=
+  { name := "ramp", fn := Fn.rampFn, args := [.num 0, .num 0], dur := .num d }
+
 /-- the blueprint part of `_applyDelays` for one channel:
     shift every waituntil target, prepend a waituntil, append a zero ramp -/
 def delayBP (b : BP) (delay maxdelay : Rat) : Res BP :=
-  let b1 : BP := { b with segs := b.segs.map (fun s =>
-      if s.fn.isWait then
-        match s.args with
-        | .num t :: _ => { s with args := [.num (t + delay)] }
-        | _ => s
-      else s) }
+  let b1 : BP := { b with segs := b.segs.map (shiftWait delay) }
   let r2 : Res BP :=
     if 0 < delay then b1.insertSegment 0 Fn.waitSpecial [.num delay] (.str "waituntil") .none
     else ⟨b1, none⟩
